@@ -1518,11 +1518,14 @@ impl Config {
             return Err(Error::BadConfig);
         }
 
-        // The connection pools cannot be built with these (bb8 asserts they are non-zero).
+        // The connection pools (bb8 asserts they are non-zero) and the shutdown timer
+        // cannot be built with these.
         for (name, value) in [
             ("connect_timeout", self.general.connect_timeout),
             ("idle_timeout", self.general.idle_timeout),
             ("server_lifetime", self.general.server_lifetime),
+            // tokio cannot build an interval of zero length for the shutdown timer.
+            ("shutdown_timeout", self.general.shutdown_timeout),
         ] {
             if value == 0 {
                 error!("{} must be greater than 0", name);
